@@ -198,7 +198,7 @@ impl Port {
 
             // If the RX shift register held a character, it's time
             // to move it into the FIFO.
-            if let Some(c) = self.rx_shift_reg {
+            if let Some(c) = self.rx_shift_reg.take() {
                 let _ = self.rx_fifo.push(c);
                 self.stat |= STS_RXR;
                 if self.rx_fifo.is_full() {
